@@ -156,7 +156,6 @@ type Node struct {
 	stopped bool
 }
 
-
 var genesisCache sync.Map // *genesis.GenesisConfig -> *cachedGenesis
 
 type cachedGenesis struct {
